@@ -32,7 +32,7 @@ STUBS = [
 FLOAT_MODE = "R-mode exact reals / integers"
 BOUNDS = {"quick": dict(noise_param_subsets="all 1- and 2-subsets of 9 numeric parameters", device_shapes=8),
           "thorough": dict(noise_param_subsets="same + 3-subsets", device_shapes=12)}
-OUTSIDE = ["Results and QuTiP-backed State / Operator classes (EmulationConfig is covered at representation level with StateRepr)", "SimConfig<->NoiseModel (pulser_simulation imports QuTiP)",
+OUTSIDE = ["Results and QuTiP-backed State / Operator classes (EmulationConfig is covered at representation level with StateRepr)", "the uK <-> K temperature conversion of SimConfig (float round-off)",
            "aliasing is decided by identity checks and mutation, not by the solver"]
 
 
@@ -46,7 +46,9 @@ def setup():
     import pulser.register.base_register as br
     import pulser.register.register as rg
 
-    facade.install(extra_np=(des, ser, nm, rl, br, rg), extra_float=(nm, des), extra_int=(nm, des))
+    import pulser_simulation.simconfig as sc
+
+    facade.install(extra_np=(des, ser, nm, rl, br, rg, sc), extra_float=(nm, des, sc), extra_int=(nm, des, sc))
     core.HASH_ZERO[0] = True
 
 
@@ -73,6 +75,10 @@ def h_noise(shape):
         runs = shape.get("runs")
         if runs:
             kw.update(runs=15, samples_per_run=5)
+        if shape.get("eff"):
+            # effective-noise channels: concrete operators, symbolic rates (two channels may well have the same rate)
+            ops = [np.array([[0.0, 1.0], [1.0, 0.0]]), np.array([[1.0, 0.0], [0.0, -1.0]]), np.array([[0.0, -1j], [1j, 0.0]])][:shape["eff"]]
+            kw.update(eff_noise_opers=ops, eff_noise_rates=[inp.real("eff_rate%d" % i, 0.001, 1) for i in range(shape["eff"])])
         try:
             nm = NoiseModel(**kw)
             ok = True
@@ -111,6 +117,49 @@ def h_noise(shape):
             label = "k1:roundtrip_field:" + f.name
             obs.append((label, l2.snap_equal(a, b)))
             inp.publish("runs_not_relevant@" + label, NOT(need_runs))
+        return obs
+
+    return h
+
+
+def h_simconfig(shape):
+    """NoiseModel -> SimConfig -> NoiseModel keeps the active noise types and every relevant parameter."""
+
+    def h(inp):
+        from pulser.noise_model import NoiseModel
+        from pulser_simulation import SimConfig
+
+        vals = {p: inp.real(p, 0, 1) for p in shape["params"]}
+        kw = dict(vals)
+        if any(NOISE_PARAMS[p][1] in ("SPAM", "amplitude", "doppler") for p in vals):
+            kw.update(runs=15, samples_per_run=5)
+        if shape.get("eff"):
+            import numpy as _np
+
+            ops = [_np.array([[0.0, 1.0], [1.0, 0.0]]), _np.array([[1.0, 0.0], [0.0, -1.0]]), _np.array([[0.0, -1j], [1j, 0.0]])][:shape["eff"]]
+            rates = [inp.real("eff_rate%d" % i, 0, 1) for i in range(shape["eff"])]
+            kw.update(eff_noise_opers=ops, eff_noise_rates=rates)
+        try:
+            nm = NoiseModel(**kw)
+        except (ValueError, TypeError):
+            raise core.Infeasible()
+        try:
+            cfg = SimConfig.from_noise_model(nm)
+            nm2 = cfg.to_noise_model()
+        except (ValueError, TypeError, NotImplementedError):
+            return [("k1b:conversion_completes", False)]
+        obs = [("k1b:same_noise_types", set(nm2.noise_types) == set(nm.noise_types))]
+        relevant = set(NoiseModel._find_relevant_params(nm.noise_types, nm.state_prep_error, nm.amp_sigma, nm.laser_waist))
+        for f in dataclasses.fields(nm):
+            if f.name in ("noise_types", "runs", "samples_per_run", "with_leakage") or f.name not in relevant:
+                continue
+            a, b = getattr(nm, f.name), getattr(nm2, f.name)
+            if f.name == "eff_noise_opers":
+                import numpy as _np
+
+                obs.append(("k1b:relevant_param_kept:" + f.name, len(a) == len(b) and all(_np.allclose(_np.asarray(x, dtype=complex), _np.asarray(y, dtype=complex)) for x, y in zip(a, b))))
+                continue
+            obs.append(("k1b:relevant_param_kept:" + f.name, l2.snap_equal(a, b)))
         return obs
 
     return h
@@ -302,6 +351,15 @@ def kernels(tier):
         ks.append(("noise", dict(params=sub, runs=True)))
     for sub in ([["temperature"], ["amp_sigma"], ["state_prep_error"], ["p_false_pos"], ["relaxation_rate", "amp_sigma"]]):
         ks.append(("noise", dict(params=sub, runs=False)))
+    for n_eff in (1, 2, 3):
+        ks.append(("noise", dict(params=["relaxation_rate"] if n_eff == 2 else [], runs=True, eff=n_eff)))
+    # NoiseModel <-> SimConfig (temperature left out: the uK <-> K conversion is float round-off, outside the claim)
+    sc_names = [p for p in names if p != "temperature"]
+    for sub in [[p] for p in sc_names] + [list(c) for c in itertools.combinations(sc_names, 2)][::(3 if quick else 1)]:
+        ks.append(("simconfig", dict(params=sub)))
+    for n_eff in (1, 2, 3):
+        ks.append(("simconfig", dict(params=[], eff=n_eff)))
+    ks.append(("simconfig", dict(params=["dephasing_rate"], eff=2)))
     dev_opts = [[], ["mod"], ["mod", "pjt", "minavg"], ["eom"], ["eom", "eombuf", "eom2", "eomopt"], ["dmm"], ["dmm", "total", "mod"],
                 ["maxt", "seqdur", "runs", "filling"], ["atoms", "radius", "reuse", "propdir"], ["eom", "eomopt"], ["eom", "eom2"]]
     for opt in dev_opts:
@@ -318,7 +376,7 @@ def kernels(tier):
 
 
 def harness(kernel, shape):
-    return {"noise": h_noise, "device": h_device, "register": h_register}[kernel](shape)
+    return {"noise": h_noise, "simconfig": h_simconfig, "device": h_device, "register": h_register}[kernel](shape)
 
 
 # ---- K3 (partial): EmulationConfig round trip (representation level) --------
@@ -393,7 +451,9 @@ def h_config(shape):
             cfg_kw["default_evaluation_times"] = times("d", 3)
         elif shape.get("default_times") == "full":
             cfg_kw["default_evaluation_times"] = "Full"
-        if shape.get("noise"):
+        if shape.get("noise") == "eff":
+            cfg_kw["noise_model"] = NoiseModel(eff_noise_rates=(inp.real("eff_rate", 0.001, 1),), eff_noise_opers=(np.array([[0.0, 1.0], [1.0, 0.0]]),))
+        elif shape.get("noise"):
             cfg_kw["noise_model"] = NoiseModel(relaxation_rate=inp.real("relax", 0, 1), dephasing_rate=inp.real("deph", 0, 1))
         if shape.get("interaction"):
             x = inp.real("U01", -10, 10)
@@ -432,6 +492,7 @@ def kernels(tier):
     ks.append(("config", dict(obs=["correlation", "energy", "variance"], times=[True, False, False], default_times="full", mod=True)))
     ks.append(("config", dict(obs=["occupation"], times=[False], noise=True, interaction=True, prefer=True)))
     ks.append(("config", dict(obs=["fidelity", "bitstrings"], times=[True, False], init=True, shots=7, prefer=False)))
+    ks.append(("config", dict(obs=["bitstrings"], times=[True], noise="eff")))
     return ks
 
 
